@@ -197,8 +197,14 @@ enum Maint {
     Reopen,
     CloseReopen,
     AutoCkpt,
+    /// drop + open WITHOUT re-issuing the pragmas: WAL stays off from here on (pass wal-left-off)
+    ReopenNoPragma,
+    /// close() + open without re-issuing the pragmas
+    CloseReopenNoPragma,
 }
-const ALL_MAINT: [Maint; 5] = [Maint::Ckpt, Maint::PragmaCkpt, Maint::Reopen, Maint::CloseReopen, Maint::AutoCkpt];
+const ALL_MAINT: [Maint; 7] = [Maint::Ckpt, Maint::PragmaCkpt, Maint::Reopen, Maint::CloseReopen, Maint::AutoCkpt, Maint::ReopenNoPragma, Maint::CloseReopenNoPragma];
+/// the maintenance ops of the generic passes
+const STD_MAINT: [Maint; 5] = [Maint::Ckpt, Maint::PragmaCkpt, Maint::Reopen, Maint::CloseReopen, Maint::AutoCkpt];
 impl Maint {
     fn name(self) -> &'static str {
         match self {
@@ -206,6 +212,8 @@ impl Maint {
             Maint::PragmaCkpt => "pragma_wal_checkpoint",
             Maint::Reopen => "reopen",
             Maint::CloseReopen => "close_reopen",
+            Maint::ReopenNoPragma => "reopen_nopragma",
+            Maint::CloseReopenNoPragma => "close_reopen_nopragma",
             Maint::AutoCkpt => "auto_checkpoint",
         }
     }
@@ -213,7 +221,7 @@ impl Maint {
         ALL_MAINT.iter().copied().find(|m| m.name() == s)
     }
     fn is_reopen(self) -> bool {
-        matches!(self, Maint::Reopen | Maint::CloseReopen)
+        matches!(self, Maint::Reopen | Maint::CloseReopen | Maint::ReopenNoPragma | Maint::CloseReopenNoPragma)
     }
 }
 
@@ -369,7 +377,7 @@ impl RunKey {
 
 #[derive(Default, Clone, Debug)]
 struct RunStats {
-    maint_by_kind: [u64; 5],
+    maint_by_kind: [u64; 7],
     ckpt_frames_moved: u64,
     ckpt_wal_truncated: u64,
     reopens: u64,
@@ -553,14 +561,16 @@ fn do_maint(t: &mut TestDb, m: Maint, cfg: Cfg, burn: u64, ids_upper: &mut u64, 
                 o => Err(format!("PRAGMA wal_checkpoint_threshold=1: {}", o.show())),
             }
         }
-        Maint::Reopen | Maint::CloseReopen => {
+        Maint::Reopen | Maint::CloseReopen | Maint::ReopenNoPragma | Maint::CloseReopenNoPragma => {
             st.reopens += 1;
-            let r = if m == Maint::Reopen { t.reopen() } else { t.close_reopen() };
+            let r = if matches!(m, Maint::Reopen | Maint::ReopenNoPragma) { t.reopen() } else { t.close_reopen() };
             r.map_err(|e| format!("{} failed: {e}", m.name()))?;
-            // pragmas are not persisted: WAL is OFF again after a reopen
-            apply_cfg(t, cfg).map_err(|e| format!("pragma after reopen failed: {e}"))?;
-            if *armed {
-                let _ = t.exec("PRAGMA wal_checkpoint_threshold=1");
+            if matches!(m, Maint::Reopen | Maint::CloseReopen) {
+                // pragmas are not persisted: WAL is OFF again after a reopen
+                apply_cfg(t, cfg).map_err(|e| format!("pragma after reopen failed: {e}"))?;
+                if *armed {
+                    let _ = t.exec("PRAGMA wal_checkpoint_threshold=1");
+                }
             }
             // KF-C04-01 avoidance: the global row-id counter restarts at 1 on open; restore its exact
             // pre-reopen value (measured by a calibration run) by (possibly failing) inserts into the side
@@ -1013,7 +1023,7 @@ fn passes(ctx: &Ctx) -> Vec<Pass> {
     v.push(Pass { name: "deep-comp-reopen", vars: deep_vars, alphabet: deep_alpha, max_ops: if q { 3 } else { 4 }, maints: REOPENS.to_vec(), wals: both.clone(), comp: true, pairs: false, pos0_upto: 0 });
     if !q {
         // two maintenance ops (every ordered pair at positions p1 <= p2)
-        v.push(Pass { name: "pairs", vars: vec![Var::PkIdx, Var::Auto], alphabet: reduced_alphabet(), max_ops: 2, maints: ALL_MAINT.to_vec(), wals: both, comp: true, pairs: true, pos0_upto: 1 });
+        v.push(Pass { name: "pairs", vars: vec![Var::PkIdx, Var::Auto], alphabet: reduced_alphabet(), max_ops: 2, maints: STD_MAINT.to_vec(), wals: both, comp: true, pairs: true, pos0_upto: 1 });
     }
     v
 }
@@ -1761,7 +1771,7 @@ impl Check for C04 {
     fn run(&self, ctx: &Ctx, rep: &mut Reporter) {
         // recorded first so that a capped run still carries a sample
         rep.sample(|| json!({"variant": "pkidx", "ops": ["INS1", "UPDALL", "DEL1"], "maint": [{"pos": 2, "op": "close_reopen"}], "cfg": {"wal": true}, "meaning": "CREATE t + index; INSERT 1; close()+open; UPDATE all; DELETE 1; observe — vs. the same without close()+open"}));
-        for c in ["catalog_roundtrip_runs", "catalog_roundtrip_index_plans", "maint_checkpoint", "maint_pragma_wal_checkpoint", "maint_reopen", "maint_close_reopen", "maint_auto_checkpoint", "reopens", "checkpoints_that_moved_frames", "runs_wal_on", "runs_wal_off", "twin_index_plans_for_a_lookup"] {
+        for c in ["wal_left_off_runs", "catalog_roundtrip_runs", "catalog_roundtrip_index_plans", "maint_checkpoint", "maint_pragma_wal_checkpoint", "maint_reopen", "maint_close_reopen", "maint_auto_checkpoint", "reopens", "checkpoints_that_moved_frames", "runs_wal_on", "runs_wal_off", "twin_index_plans_for_a_lookup"] {
             rep.expect_nonzero(c);
         }
         let ps = passes(ctx);
@@ -1784,6 +1794,78 @@ impl Check for C04 {
                 }
             }
             return;
+        }
+        // pass "wal-left-off": session 1 with WAL on, reopen WITHOUT re-issuing PRAGMA wal=ON (the real default:
+        // WAL is off after every open), session 2 modifies the same pages, second reopen.  A stale session-1
+        // log replayed by the second open would revert the session-2 writes.  Twin: never reopens.
+        if ctx.opt("only").map(|o| o == "wal-left-off").unwrap_or(true) {
+            let q = ctx.quick();
+            let a1: Vec<Op> = if q { vec![Op::Ins(1), Op::Ins2(2, 3), Op::Upd(1), Op::Del(1), Op::InsA] } else { vec![Op::Ins(1), Op::Ins(2), Op::Ins2(2, 3), Op::Upd(1), Op::UpdAll, Op::Del(1), Op::InsA, Op::TxnIns(3)] };
+            let a2: Vec<Op> = vec![Op::Upd(1), Op::UpdAll, Op::Del(1), Op::Ins(2), Op::Upd(2)];
+            let seqs = |alpha: &[Op], min: usize, max: usize| -> Vec<Vec<Op>> {
+                let mut out: Vec<Vec<Op>> = vec![];
+                let mut level: Vec<Vec<Op>> = vec![vec![]];
+                for d in 0..=max {
+                    if d >= min {
+                        out.extend(level.iter().cloned());
+                    }
+                    let mut next = vec![];
+                    for s in &level {
+                        for &o in alpha {
+                            let mut t = s.clone();
+                            t.push(o);
+                            next.push(t);
+                        }
+                    }
+                    level = next;
+                }
+                out
+            };
+            let s1s = seqs(&a1, 0, 2);
+            let s2s = seqs(&a2, 1, if q { 1 } else { 2 });
+            let nps = [Maint::ReopenNoPragma, Maint::CloseReopenNoPragma];
+            rep.bound("wal_left_off", json!({"session1_alphabet": a1.iter().map(|o| o.name()).collect::<Vec<_>>(), "session1_max_ops": 2, "session2_alphabet": a2.iter().map(|o| o.name()).collect::<Vec<_>>(), "session2_ops": if q { "1" } else { "1..2" }, "reopen_kinds": ["reopen_nopragma", "close_reopen_nopragma"], "variants": ALL_VARS.iter().map(|v| v.name()).collect::<Vec<_>>()}));
+            let mut eng = Engine::new(ctx);
+            let mut idx = 3_000_000u64;
+            'outer: for &var in &ALL_VARS {
+                for s1 in &s1s {
+                    idx += 1;
+                    if !ctx.mine(idx) {
+                        continue;
+                    }
+                    if ctx.expired() {
+                        rep.capped("deadline in pass wal-left-off");
+                        break 'outer;
+                    }
+                    for s2 in &s2s {
+                        let mut ops = s1.clone();
+                        ops.extend(s2.iter().copied());
+                        let (p1, p2) = ((1 + s1.len()) as u8, (1 + ops.len()) as u8);
+                        let cfg = Cfg::wal(true);
+                        for m1 in nps {
+                            for m2 in nps {
+                                // a pair is explored only over components that are individually clean (known WAL findings)
+                                let single_bad = [(p1, m1), (p2, m2)].iter().any(|x| eng.judge(&RunKey { var, ops: ops.clone(), cfg, maint: vec![*x], comp: true }).is_some());
+                                if single_bad {
+                                    rep.pruned(1);
+                                    continue;
+                                }
+                                let key = RunKey { var, ops: ops.clone(), cfg, maint: vec![(p1, m1), (p2, m2)], comp: true };
+                                let violated = check_case(&mut eng, rep, &key, "wal-left-off", true);
+                                rep.case(vcore::util::hash_of(&key), true);
+                                rep.add_states(key.steps() as u64 + 2);
+                                rep.add_transitions(key.steps() as u64 + 2);
+                                rep.add_traces_validated(1);
+                                rep.count("wal_left_off_runs", 1);
+                                rep.count("reopens", 2);
+                                rep.count("runs_wal_on", 1);
+                                rep.outcome(&format!("wal-left-off/{}+{}/{}", m1.name(), m2.name(), if violated { "diverged" } else { "equal" }));
+                            }
+                        }
+                    }
+                }
+            }
+            rep.count("wal_left_off_database_executions", eng.runs + eng.runner.calib_runs);
         }
         // pass "catalog-roundtrip" (first: small, and independent of the history passes)
         if ctx.opt("only").map(|o| o == "catalog-roundtrip").unwrap_or(true) {
